@@ -263,16 +263,35 @@ func c02FlatCase(res *core.Result, rng *rand.Rand, idx int) {
 			return
 		}
 		var in interface{} = m.Interface()
-		prefix := ""
-		slice := rng.Intn(3) == 0
-		if slice {
-			s := reflect.MakeSlice(reflect.SliceOf(m.Type()), 0, 1)
-			s = reflect.Append(s, m)
-			in = s.Interface()
-			prefix = "[0]"
-		}
 		env.Begin()
-		env.ExpectFlat(entries, rules, func(k string) string { return prefix + "map[" + k + "]" }, prefix, true, nil)
+		if rng.Intn(3) == 0 {
+			// a slice of 1-3 maps under the same rules: every element is judged on its own (its own
+			// values, its own missing keys, its own clause prefix)
+			ne := 1 + rng.Intn(3)
+			s := reflect.MakeSlice(reflect.SliceOf(m.Type()), 0, ne)
+			for e := 0; e < ne; e++ {
+				em, ee := m, entries
+				if e > 0 {
+					em = reflect.MakeMap(m.Type())
+					ee = nil
+					for k := 0; k < n; k++ {
+						key := fmt.Sprintf("k%d", k)
+						if rng.Intn(4) == 0 {
+							continue // missing in this element only
+						}
+						v := gen.TunedLeaf(rng, t, rules[key], 0.15)
+						em.SetMapIndex(reflect.ValueOf(key), v)
+						ee = append(ee, ref.FlatEntry{Key: key, Val: v})
+					}
+				}
+				s = reflect.Append(s, em)
+				prefix := fmt.Sprintf("[%d]", e)
+				env.ExpectFlat(ee, rules, func(k string) string { return prefix + "map[" + k + "]" }, prefix, true, []ref.OrdKey{{N: e}})
+			}
+			in = s.Interface()
+		} else {
+			env.ExpectFlat(entries, rules, func(k string) string { return "map[" + k + "]" }, "", true, nil)
+		}
 		exps := env.Finish()
 		out := drive.Call(func() error { return valid.Map(in, rm) })
 		res.Count("entry|Map")
